@@ -6,6 +6,7 @@ Exit status 0 = all requested groups translated; 2 = translator stopped
 (fail-closed); the diagnostic names file, line and construct.
 """
 import ast
+import copy
 import json
 import os
 import sys
@@ -609,6 +610,178 @@ def g_ehep():
         raise Unsupported('ehep.__init__: ttilde not found')
     emit('ehep_ttilde', tt, 'EscapeOfHEProducts.__init__: self.ttilde')
     return {'Ehep': (text, js)}
+
+
+@group('guderley')
+def g_guderley():
+    """Guderley (ramsey.py): the algebra around the ODE integration in state() - strong-shock start values at x = -1, the general-strength
+    jump applied at the reflected shock x = B, and the map from similarity variables (V, C, R) = y[0..2] at the target x back to physical
+    fields in each of the three integrated branches, with the values returned by solve_ivp as free variables y0, y1, y2; the constant state
+    ahead of the converging shock; the similarity coordinate targetx(t, r) of guderley_1d.  solve_ivp, eexp, brentq are outside the subset."""
+    from py2coq import Interp, free_vars
+    mod = Module(os.path.join(S, 'guderley/ramsey.py'))
+    fn = mod.funcs['state']
+    text = HEADER % 'exactpack/solvers/guderley/ramsey.py'
+    js = {}
+    ORDER = ['r', 'rho0', 'gamma', 'lambda_', 'B', 'targetx', 'y0', 'y1', 'y2', 't', 'factorC']
+
+    def emit(nm, e, comment):
+        nonlocal text
+        if not is_expr(e):
+            raise Unsupported('guderley: %s is not a scalar expression' % nm)
+        fv = free_vars(e)
+        for v in fv:
+            if v not in ORDER:
+                raise Unsupported('guderley: %s has stray variable %s' % (nm, v))
+        args = [a for a in ORDER if a in fv]
+        text += '\n' + emit_function(nm, args, e, comment=comment)
+        text += '#[global] Hint Unfold %s : epgen.\n' % nm
+        js[nm] = {'args': args, 'expr': expr_to_json(e)}
+
+    class Ren(ast.NodeTransformer):
+        def visit_Subscript(self, n):
+            if isinstance(n.value, ast.Name) and n.value.id == 'y' and isinstance(n.slice, ast.Constant) and n.slice.value in (0, 1, 2):
+                return ast.copy_location(ast.Name(id='y%d' % n.slice.value, ctx=n.ctx), n)
+            return self.generic_visit(n)
+
+    def is_y_assign(st):
+        return isinstance(st, ast.Assign) and len(st.targets) == 1 and isinstance(st.targets[0], ast.Name) and st.targets[0].id == 'y'
+
+    def is_soln(st):
+        return isinstance(st, ast.Assign) and len(st.targets) == 1 and isinstance(st.targets[0], ast.Name) and st.targets[0].id == 'soln'
+
+    body = [st for st in fn.body if not (isinstance(st, ast.Expr) and isinstance(st.value, ast.Constant))]
+    ifs = [i for i, st in enumerate(body) if isinstance(st, ast.If)]
+    if len(ifs) != 1:
+        raise Unsupported('guderley.state: expected one if-chain')
+    pro = body[:ifs[0]]
+    # prologue: parameters renamed, start values at the converging shock
+    env0 = {'r': ('var', 'r'), 'rho0': ('var', 'rho0'), 'n': ('var', 'n'), 'gamma_d': ('var', 'gamma'), 'lambda_d': ('var', 'lambda_'),
+            'B': ('var', 'B'), 'targetxd': ('var', 'targetx')}
+    interp = Interp(mod, {})
+    stm = []
+    for st in pro:
+        if isinstance(st, ast.Global):
+            continue
+        if is_y_assign(st):
+            if ast.unparse(st.value) != 'np.zeros(3)':
+                raise Unsupported('guderley.state: y initialised by %s' % ast.unparse(st.value))
+            continue
+        stm.append(Ren().visit(copy.deepcopy(st)))
+    interp.exec_body(stm, env0)
+    if interp.raises:
+        raise Unsupported('guderley.state: prologue raises')
+    for k, nm in ((0, 'V'), (1, 'C'), (2, 'R')):
+        emit('gud_start_%s' % nm, env0['y%d' % k], 'state(): similarity variable y[%d] at the converging shock x = -1' % k)
+    if not (is_expr(env0.get('t')) and env0['t'] == num(-1)):
+        raise Unsupported('guderley.state: integration does not start at x = -1')
+    base = {k: v for k, v in env0.items() if k not in ('y0', 'y1', 'y2')}
+    # the chain
+    node = body[ifs[0]]
+    tests = ['targetx < -1.0', '-1.0 <= targetx < 0.0', '0.0 <= targetx < B', 'targetx >= B']
+    names = ['ahead', 'conv', 'pre', 'refl']
+    FIELDS = ('den', 'vel', 'pres', 'snd', 'sie')
+    seen = []
+    while isinstance(node, ast.If):
+        src = ast.unparse(node.test)
+        if len(seen) >= 4 or src != tests[len(seen)]:
+            raise Unsupported('guderley.state: branch %d has test %s' % (len(seen), src))
+        nm = names[len(seen)]
+        sts = list(node.body)
+        env = dict(base)
+        interp = Interp(mod, {})
+        if nm == 'ahead':
+            interp.exec_body(sts, env)
+        else:
+            solves = [i for i, st in enumerate(sts) if is_soln(st)]
+            reads = [i for i, st in enumerate(sts) if is_y_assign(st)]
+            for i in reads:
+                if ast.unparse(sts[i].value) != 'soln.y[:, -1]':
+                    raise Unsupported('guderley.state: y read as %s' % ast.unparse(sts[i].value))
+            want = ['solve_ivp(g, (t, targetx), y, rtol=relerr, atol=abserr)'] if nm != 'refl' else \
+                ['solve_ivp(g, (t, B), y, rtol=relerr, atol=abserr)', 'solve_ivp(g, (B, targetx), y, rtol=relerr, atol=abserr)']
+            got = [ast.unparse(sts[i].value) for i in solves]
+            if got != want or len(reads) != len(solves) or any(r_ != s_ + 1 for r_, s_ in zip(reads, solves)):
+                raise Unsupported('guderley.state: branch %s integrates %s' % (nm, got))
+            if nm == 'refl':
+                jump = [Ren().visit(copy.deepcopy(st)) for st in sts[reads[0] + 1:solves[1]]]
+                envj = dict(base, y0=('var', 'y0'), y1=('var', 'y1'), y2=('var', 'y2'))
+                interp.exec_body(jump, envj)
+                for k, vn in ((0, 'V'), (1, 'C'), (2, 'R')):
+                    emit('gud_jump_%s' % vn, envj['y%d' % k], 'state(): y[%d] just behind the reflected shock from (y0, y1, y2) just ahead of it' % k)
+            tail = [Ren().visit(copy.deepcopy(st)) for st in sts[reads[-1] + 1:]]
+            env.update(y0=('var', 'y0'), y1=('var', 'y1'), y2=('var', 'y2'))
+            interp.exec_body(tail, env)
+        if interp.raises:
+            raise Unsupported('guderley.state: branch %s raises' % nm)
+        for f in FIELDS:
+            if f not in env:
+                raise Unsupported('guderley.state: branch %s does not set %s' % (nm, f))
+            emit('gud_%s_%s' % (nm, f), env[f], 'state(), branch %s (%s): %s' % (nm, src, f))
+        seen.append(nm)
+        node = node.orelse[0] if len(node.orelse) == 1 and isinstance(node.orelse[0], ast.If) else None
+    if seen != names:
+        raise Unsupported('guderley.state: branches %s' % seen)
+    # the right-hand side g(t, y) of the similarity ODEs (globals lambda_, nu, gamma are set by state(): nu = n - 1)
+    fg = mod.funcs['g']
+    if [a.arg for a in fg.args.args] != ['t', 'y']:
+        raise Unsupported('guderley.g: signature')
+
+    class RenG(ast.NodeTransformer):
+        def visit_Subscript(self, n):
+            if isinstance(n.value, ast.Name) and n.value.id in ('y', 'num', 'yp') and isinstance(n.slice, ast.Constant) and n.slice.value in (0, 1, 2):
+                return ast.copy_location(ast.Name(id='%s%d' % (n.value.id, n.slice.value), ctx=n.ctx), n)
+            return self.generic_visit(n)
+    gbody = []
+    for st in fg.body:
+        if isinstance(st, ast.Expr) and isinstance(st.value, ast.Constant):
+            continue
+        if isinstance(st, ast.Assign) and isinstance(st.targets[0], ast.Name) and st.targets[0].id in ('num', 'yp'):
+            if ast.unparse(st.value) != 'np.zeros(3)':
+                raise Unsupported('guderley.g: %s' % ast.unparse(st))
+            continue
+        if isinstance(st, ast.Return):
+            if ast.unparse(st.value) != 'yp':
+                raise Unsupported('guderley.g: returns %s' % ast.unparse(st.value))
+            continue
+        gbody.append(RenG().visit(copy.deepcopy(st)))
+    envg = {'t': ('var', 'x'), 'y0': ('var', 'V'), 'y1': ('var', 'C'), 'y2': ('var', 'Rr'), 'lambda_': ('var', 'lambda_'), 'nu': ('var', 'nu'), 'gamma': ('var', 'gamma')}
+    interp = Interp(mod, {})
+    interp.exec_body(gbody, envg)
+    if interp.raises:
+        raise Unsupported('guderley.g raises')
+    ORDER[:] = ['x', 'V', 'C', 'Rr', 'nu'] + ORDER
+    for k, vn in ((0, 'V'), (1, 'C'), (2, 'R')):
+        emit('gud_g_%s' % vn, envg['yp%d' % k], 'g(t, y): d y[%d] / dx with x = t, (V, C, Rr) = y' % k)
+    nus = [st for st in pro if isinstance(st, ast.Assign) and isinstance(st.targets[0], ast.Name) and st.targets[0].id == 'nu']
+    if len(nus) != 1 or ast.unparse(nus[0].value) != 'n - 1':
+        raise Unsupported('guderley.state: nu is not n - 1')
+    # what state() returns
+    ret = [st for st in body[ifs[0] + 1:] if isinstance(st, ast.Return)]
+    if len(ret) != 1 or ast.unparse(ret[0].value) not in ('(den, vel, pres, snd, sie)', 'den, vel, pres, snd, sie'):
+        raise Unsupported('guderley.state: return statement')
+    # guderley_1d: similarity coordinate of (t, r)
+    fd = mod.funcs['guderley_1d']
+    interp = Interp(mod, {})
+    envd = {'t': ('var', 't'), 'lambda_': ('var', 'lambda_')}
+    tee = tx = None
+    for st in ast.walk(fd):
+        if isinstance(st, ast.Assign) and isinstance(st.targets[0], ast.Name):
+            if st.targets[0].id == 'factorC':
+                envd['factorC'] = interp.ev(st.value, envd)
+            elif st.targets[0].id == 'tee':
+                tee = st
+            elif st.targets[0].id == 'targetx':
+                tx = st
+    if tee is None or tx is None or 'factorC' not in envd:
+        raise Unsupported('guderley_1d: tee / targetx not found')
+    envd['tee'] = interp.ev(tee.value, envd)
+    envd['rpos'] = ('var', 'r')
+    emit('gud_targetx', interp.ev(tx.value, envd), 'guderley_1d: similarity coordinate x = (t / factorC - 1) / r**lambda')
+    calls = [n for n in ast.walk(fd) if isinstance(n, ast.Call) and isinstance(n.func, ast.Name) and n.func.id == 'state']
+    if len(calls) != 1 or ast.unparse(calls[0]) != 'state(rpos, rho0, ngeom, gamma, lambda_, B, targetx)':
+        raise Unsupported('guderley_1d: call of state()')
+    return {'Guderley': (text, js)}
 
 
 def methods_group(relpath, outname, specs):
